@@ -12,7 +12,7 @@ build() {
 }
 need_build() {
   [ ! -x bin/archecheck ] && return 0
-  [ -n "$(find checker -name '*.go' -newer bin/archecheck -print -quit)" ] && return 0
+  [ -n "$(find checker \( -name '*.go' -o -name 'schema_ref.json' \) -newer bin/archecheck -print -quit)" ] && return 0
   [ checker/go.mod -nt bin/archecheck ] && return 0
   return 1
 }
